@@ -5,6 +5,7 @@ package main
 // and the REAL allocator (constructor, handlers, syncNode, syncClusterCIDR, processNext*WorkItem).
 
 import (
+	"sync/atomic"
 	"bufio"
 	"context"
 	"os"
@@ -1242,12 +1243,39 @@ func (w *sysWorld) step(f []string) (res int, requeued bool) {
 
 const stallTimeout = 20 * time.Second
 
+// the whole handling of a line -- the step AND the observation that follows it (the snapshot reads the allocator's state under
+// its own locks) -- is watched: a lock left held by a step that returned shows up when the observation is taken
+var (
+	beatAt   atomic.Int64
+	beatLine atomic.Int64
+	beatOp   atomic.Value
+)
+
+func startLineWatchdog(out *bufio.Writer) {
+	beatAt.Store(time.Now().UnixNano())
+	beatOp.Store("")
+	go func() {
+		for {
+			time.Sleep(time.Second)
+			if time.Since(time.Unix(0, beatAt.Load())) > stallTimeout+5*time.Second {
+				op, _ := beatOp.Load().(string)
+				fmt.Fprintf(os.Stderr, "STALL line=%d op=%s\n", beatLine.Load(), op)
+				os.Exit(3)
+			}
+		}
+	}()
+}
+
 func runSys(sc *bufio.Scanner, out *bufio.Writer) {
 	var w *sysWorld
 	lineNo := 0
+	startLineWatchdog(out)
 	for sc.Scan() {
 		lineNo++
 		line := strings.TrimSpace(sc.Text())
+		beatAt.Store(time.Now().UnixNano())
+		beatLine.Store(int64(lineNo))
+		beatOp.Store(line)
 		if line == "" || strings.HasPrefix(line, "#") {
 			continue
 		}
